@@ -580,6 +580,40 @@ func RunDetPure(c *core.Ctx) {
 				return true
 			})
 			// --- map ranges
+			// iteration over a map without a range statement: maps.Keys / maps.Values / maps.All hand the map's random order
+			// on; only the sorted collectors take it away
+			var stack []ast.Node
+			ast.Inspect(fd.Body, func(x ast.Node) bool {
+				if x == nil {
+					stack = stack[:len(stack)-1]
+					return true
+				}
+				stack = append(stack, x)
+				call, ok := x.(*ast.CallExpr)
+				if !ok {
+					return true
+				}
+				q := core.QualName(core.CalleeObj(info, call))
+				if q != "maps.Keys" && q != "maps.Values" && q != "maps.All" && !strings.HasPrefix(q, "golang.org/x/exp/maps.") &&
+					q != "reflect.Value.MapKeys" && q != "reflect.Value.MapRange" {
+					return true
+				}
+				nRange++
+				con := fmt.Sprintf("%s.%s %s", rel, name, clip(types.ExprString(call), 60))
+				sorted := false
+				if len(stack) >= 2 {
+					if outer, ok := stack[len(stack)-2].(*ast.CallExpr); ok && len(outer.Args) >= 1 && outer.Args[0] == ast.Expr(call) {
+						oq := core.QualName(core.CalleeObj(info, outer))
+						sorted = oq == "slices.Sorted" || oq == "slices.SortedFunc" || oq == "slices.SortedStableFunc"
+					}
+				}
+				if sorted {
+					c.Ok("T.det", con, "map iterator consumed by a sorting collector", c.PosStr(p.Fset, call.Pos()), src)
+				} else {
+					c.Fail("T.det", con, "the elements of a Go map are taken in iteration order (maps.Keys/Values/All) without being sorted: the order can reach the output", c.PosStr(p.Fset, call.Pos()), src)
+				}
+				return true
+			})
 			ast.Inspect(fd.Body, func(x ast.Node) bool {
 				rs, ok := x.(*ast.RangeStmt)
 				if !ok {
@@ -735,6 +769,74 @@ func RunDetPure(c *core.Ctx) {
 					})
 				})
 			}
+			// unexported helpers of the generator package that only the confirmed readers call are part of them
+			if rel == "generator" {
+				enclosing := map[*ast.Ident]*ast.FuncDecl{}
+				eachFunc(p, func(fd *ast.FuncDecl) {
+					ast.Inspect(fd, func(x ast.Node) bool {
+						if id, ok := x.(*ast.Ident); ok {
+							enclosing[id] = fd
+						}
+						return true
+					})
+				})
+				confirmed := map[string]bool{"NewGenerator": true, "GenerateFile": true, "IsLocalMessage": true}
+				for changed := true; changed; {
+					changed = false
+					eachFunc(p, func(fd *ast.FuncDecl) {
+						o := p.TypesInfo.Defs[fd.Name]
+						if o == nil || ast.IsExported(fd.Name.Name) || confirmed[fd.Name.Name] || fd.Recv != nil {
+							return
+						}
+						n, all := 0, true
+						for id, obj := range p.TypesInfo.Uses {
+							if obj != o {
+								continue
+							}
+							n++
+							ef := enclosing[id]
+							if ef == nil || !confirmed[ef.Name.Name] {
+								all = false
+							}
+						}
+						if n > 0 && all {
+							confirmed[fd.Name.Name] = true
+							changed = true
+						}
+					})
+				}
+				eachFunc(p, func(fd *ast.FuncDecl) {
+					if !confirmed[fd.Name.Name] {
+						return
+					}
+					ast.Inspect(fd, func(x ast.Node) bool {
+						if id, ok := x.(*ast.Ident); ok {
+							allowed[id] = true
+						}
+						return true
+					})
+				})
+			}
+			// unexported functions that nothing refers to any more (their calls were inlined by the helper normalisation)
+			// cannot run: what they read is read, and judged, at the place they were inlined into
+			usedFn := map[types.Object]bool{}
+			for _, obj := range p.TypesInfo.Uses {
+				if _, isF := obj.(*types.Func); isF {
+					usedFn[obj] = true
+				}
+			}
+			eachFunc(p, func(fd *ast.FuncDecl) {
+				o := p.TypesInfo.Defs[fd.Name]
+				if o == nil || ast.IsExported(fd.Name.Name) || usedFn[o] || fd.Name.Name == "main" || fd.Name.Name == "init" {
+					return
+				}
+				ast.Inspect(fd, func(x ast.Node) bool {
+					if id, ok := x.(*ast.Ident); ok {
+						allowed[id] = true
+					}
+					return true
+				})
+			})
 			var ids []*ast.Ident
 			for id, obj := range p.TypesInfo.Uses {
 				if _, ok := watch[obj]; ok && !allowed[id] {
